@@ -17,6 +17,11 @@ if m:
         suite = f"{mm.group(2)} of {mm.group(1)} passed" + ("; timed out: boa_macros_tests::derive try_from_js (trybuild recompiles the engine inside the 300 s per-test limit; it times out on the unchanged tree as well whenever its cache is cold)" if fails else "")
 demo_without = re.search(r"== demo WITHOUT the change\n(.*?)== demo WITH", log, re.S)
 demo_with = re.search(r"== demo WITH the change\n(.*?)(== pinned|== done|$)", log, re.S)
+if os.path.exists(f"{d}/confirm-O.log"):
+    # boa_cli keeps the optimizer off unless -O is given: the demonstration was run again with -O
+    lo = open(f"{d}/confirm-O.log").read()
+    demo_without = re.search(r"WITHOUT the change\n(.*?)== demo", lo, re.S)
+    demo_with = re.search(r"WITH the change\n(.*?)(== done|$)", lo, re.S)
 checks = {}
 for f in sorted(glob.glob(f"{d}/check-*.log")):
     t = open(f).read()
